@@ -130,6 +130,15 @@ class Normalizer:
                 v = self._bind_closure(v, f[2], args)
                 return self.norm(v, depth + 1)
         if isinstance(f, tuple) and len(f) == 2 and f[0] == "const" and isinstance(f[1], str):
+            # a tuple-variant / tuple-struct constructor used as a function: Adt::Variant(args) is the aggregate itself
+            path = names.strip_generics(f[1])
+            if "::" in path:
+                adt_path, variant = path.rsplit("::", 1)
+                a = p.adts.get(adt_path)
+                if a is not None and any(v["name"] == variant for v in a.get("variants", [])):
+                    return ("agg", adt_path, variant, tuple((str(i), x) for i, x in enumerate(args)))
+                if adt_path in ("core::option::Option", "core::result::Result") and variant in ("Some", "Ok", "Err"):
+                    return ("agg", adt_path, variant, tuple((str(i), x) for i, x in enumerate(args)))
             return ("call", f[1], tuple(args), None)
         return ("call", "apply", (f,) + tuple(args), None)
 
@@ -306,6 +315,12 @@ class Normalizer:
             return res_case(x, lambda pl: ("const", 1), lambda e: ("const", 0))
         if is_("Result::is_err") and n == 1:
             return res_case(x, lambda pl: ("const", 0), lambda e: ("const", 1))
+        if is_("Result::unwrap_or_default") and n == 1:
+            return res_case(x, lambda pl: pl, lambda e: ("default",))
+        if is_("Result::map_or") and n == 3:
+            return res_case(x, lambda pl: ap(a[2], pl), lambda e: a[1])
+        if is_("Result::map_or_else") and n == 3:
+            return res_case(x, lambda pl: ap(a[2], pl), lambda e: ap(a[1], e))
         if is_("Result::unwrap_or") and n == 2:
             return res_case(x, lambda pl: pl, lambda e: a[1])
         if is_("Result::unwrap_or_else") and n == 2:
